@@ -688,3 +688,6 @@ def check(ctx):
     c04.check_planar(ctx, R="C02.pred.planar")
     c17.check_occluders(ctx, R="C02.pred.occluders")
     c17.check_plumbing(ctx, R="C02.pred.plumbing")
+    from . import c16
+
+    c16.check_algebra(ctx, R="C02.pred.algebra")
